@@ -163,16 +163,15 @@ func doBind(sc *Collection, originalInvokeF *provider, originalInitF *provider, 
 			continue
 		}
 		fm.mustZeroIfRemainderSkipped = skippedIfStaticFails
-		addToVmap(fm, outputParams, downVmap, fm.downRmap, &vCount)
+		// outputs are stored under their own types: downRmap only says under which
+		// type an input is found
+		addToVmap(fm, outputParams, downVmap, nil, &vCount)
 		if fm.group == staticGroup {
 			// only static injectors can be skipped: literals and init parameters
 			// are in place before the static chain runs and must not be zeroed
 			later := make([]typeCode, len(skippedIfStaticFails), len(skippedIfStaticFails)+len(fm.flows[outputParams]))
 			copy(later, skippedIfStaticFails)
 			for _, tc := range fm.flows[outputParams] {
-				if rm, found := fm.downRmap[tc]; found {
-					tc = rm
-				}
 				if slot, ok := downVmap[tc]; ok && slot >= 0 {
 					later = append(later, tc)
 				}
